@@ -58,7 +58,7 @@ def check_function(ctx, fn, rule='R-FRESH'):
             if a is L:
                 break
             cur = a
-        skipping = [x for x in L.walk() if x.k == 'ContinueStmt' and x.id > c.id]
+        skipping = [x for x in L.walk() if x.k == 'ContinueStmt' and x.pos > c.pos]
         ctx.check(found and not skipping, rule, '%s/%s-emptied@%s' % (fn.qn.replace('gdstk::', ''), arr.n, c.loc()), c.loc(), 'the scratch array `%s` filled by %s is emptied before the next iteration' % (arr.n, (c.callee or '').split('::')[-1]),
                   'the scratch array `%s` is filled by %s (which appends) inside a loop but not emptied in that iteration%s: the next element is expanded over stale entries as well' % (arr.n, (c.callee or '').split('::')[-1], ' (a `continue` skips the reset)' if skipping else ''))
     return n
